@@ -155,3 +155,13 @@ Proof.
 Qed.
 Theorem write_srt_c_no_panic l p : write_srt_c l <> Panic p.
 Proof. rewrite write_srt_c_ok. unfold write_srt. destruct l; discriminate. Qed.
+
+(* ---- nil elements inside Items: skipped (nonNilItems) ---- *)
+Theorem write_srt_items_c_no_panic (l : list (option sitem)) p : write_srt_items_c l <> Panic p.
+Proof. apply write_srt_c_no_panic. Qed.
+Theorem nil_items_skipped (l : list sitem) (a b : list (option sitem)) :
+  write_srt_items_c (map Some l) = write_srt_c l /\
+  write_srt_items_c (a ++ None :: b) = write_srt_items_c (a ++ b).
+Proof.
+  unfold write_srt_items_c. split; [rewrite somes_map_Some; reflexivity|]. rewrite !somes_app. reflexivity.
+Qed.
